@@ -445,7 +445,10 @@ def corruption_cases(ctx, info, img, thorough, fields, table_rows, canonical_res
     for _ in range(300 if thorough else 60):
         k = rng.choice((1, 1, 2, 4, 8))
         o = rng.randrange(0, img.total - k)
-        case("random", img.region(o), "w%d:%s" % (o, "".join("%02x" % rng.randrange(256) for _ in range(k))), "@%d" % o)
+        # a multi-byte write can straddle two arrays: name both, so that the oracle attributes an accepted corruption to the
+        # array that was really changed (e.g. the last byte landing in sensor_dim) and not only to the one holding the first byte
+        ra, rb = img.region(o), img.region(o + k - 1)
+        case("random", ra if ra == rb else ra + "+" + rb, "w%d:%s" % (o, "".join("%02x" % rng.randrange(256) for _ in range(k))), "@%d" % o)
     # insertions / deletions
     for _ in range(20 if thorough else 6):
         o = rng.randrange(img.hdr, img.total)
@@ -556,7 +559,8 @@ def classify(ctx, case, model_out, impl_out, covered, mdl_idx, desc, fails, note
     """property oracle on the implementation's output alone (the model's output is only quoted in the replay).
     `fails`: key -> [(what, replay)] (violations); `notes`: label -> [text] (observations that are not violations of C31)"""
     res, orc = split_out(impl_out)
-    cls, field = case["cls"], case["field"]
+    cls, field_all = case["cls"], case["field"]
+    field = field_all.split("+")[0]        # keys and messages name the array holding the first byte, as before
     replay = {"model": mdl_idx, "op": "load " + case["edits"], "class": cls, "field": field, "note": case["note"], "impl_output": impl_out[:600],
               "model_output": model_out[:300],
               "replay": "printf 'model <description>\\n<rule lines of checks/c31.py rule_lines()>\\noracle 1\\nload %s\\n' | <c31_mjb harness>"
@@ -614,7 +618,8 @@ def classify(ctx, case, model_out, impl_out, covered, mdl_idx, desc, fails, note
         elif arr in covered and v == -1:
             fail("c31:minus-one-with-count-accepted", "the loader accepted %s (address -1 with a non-empty range; every row of the table accepts -1)%s"
                  % (oob, tail))
-        elif arr in covered and cls in ("ref", "type", "random") and field != arr and field in COUNT_ARRAYS:
+        elif arr in covered and cls in ("ref", "type", "random") and any(f != arr and f in COUNT_ARRAYS for f in field_all.split("+")):
+            field = [f for f in field_all.split("+") if f != arr and f in COUNT_ARRAYS][0]
             fail("c31:unvalidated-count-array:%s" % field, "the loader accepted %s %s, which makes %s: %s is validated with a size derived elsewhere, "
                  "the engine uses %s%s" % (field, case["note"], oob, arr, field, tail))
         elif arr in covered:
